@@ -910,6 +910,17 @@ def quantity_ops_search():
                     z = x.as_unit(t)
                     if z.si != x.si or z.unit != t or type(z) is not q:
                         return {"class": q.__name__, "x": [v, un], "failure": "as_unit(%r) gives si %r unit %r" % (t, z.si, z.unit)}
+                for tbl, opname, f, g in ((q._mul, "*", lambda a, b: a * b, lambda a, b: a * b), (q._div, "/", lambda a, b: a / b, lambda a, b: a / b)):
+                    for oc, rc in list(tbl.items())[:6]:
+                        yv = oc(2.5)
+                        try:
+                            r = f(x, yv)
+                        except Exception as e:
+                            return {"class": q.__name__, "other": oc.__name__, "failure": "%s raised %s: %s" % (opname, type(e).__name__, e)}
+                        if type(r) is not rc or r.si != g(x.si, yv.si) or list(x.sisig()) != list(q.sisig()):
+                            return {"class": q.__name__, "x": [v, un], "other": oc.__name__,
+                                    "failure": "%s %s %s gives %s with si %r; the table prescribes %s with si %r"
+                                               % (q.__name__, opname, oc.__name__, type(r).__name__, r.si, rc.__name__, g(x.si, yv.si))}
                 o = other_cls(1.0)
                 for name, f, exc in (("+", lambda: x + o, ValueError), ("-", lambda: x - o, ValueError), ("<", lambda: x < o, TypeError),
                                      (">=", lambda: x >= o, TypeError)):
